@@ -970,8 +970,47 @@ fn run(case: &Value) -> Obs {
         let input: TestExamplesProjectInput = serde_json::from_value(json!({"change_set": c.change_set(), "max_hops": c.max_hops, "project_domains": c.domains})).unwrap();
         serde_json::to_value(TestExamplesOutput::from_project(input, c.base_router())).unwrap()
     };
+    if std::env::var("C19_DEBUG").is_ok() {
+        let keys = |v: &Value| -> Vec<String> { v["first_ten_failures"].as_object().map(|m| m.keys().cloned().collect()).unwrap_or_default() };
+        eprintln!("first_ten_failures keys: standalone {:?} | same input again {:?} | project {:?}", keys(&te_s), keys(&te_std(&applied)), keys(&te_p));
+    }
     if canon_test_examples(&te_p) != canon_test_examples(&te_s) {
         fails.push(("test-examples: project != standalone".into(), "project-vs-standalone"));
+    }
+    // run_args --strict-first-ten: the sample of failing rules itself must be a function of the input.  It is not when
+    // more than eleven rules fail (`first_ten_failures.len() <= 10` admits an eleventh, then membership follows the
+    // iteration order of `router.routes()`, a HashMap with a per-instance random state): observation O10 in notes/wp/W8.md
+    if std::env::args().any(|a| a == "--strict-first-ten") {
+        let again = te_std(&applied);
+        if canon(&again) != canon(&te_s) || canon(&te_p) != canon(&te_s) {
+            fails.push(("test-examples: first_ten_failures / first_ten_errors differ between two evaluations of the same input".into(), "first-ten-nondeterministic"));
+        }
+    }
+    // round trip unit-ids -> test-examples: an example carrying exactly the unit ids the unit-ids analysis reports for it
+    // is never reported with "unit ids not applied any more" (the two analyses replay the same pipeline; test-examples
+    // additionally asks for the log decision, which can only ADD unit ids — observation O9)
+    {
+        let ui: UnitIdsInput = serde_json::from_value(json!({"router_config": c.config_json, "rules": applied})).unwrap();
+        let ui_out = serde_json::to_value(UnitIdsOutput::create_result_without_project(ui)).unwrap();
+        let mut rules2: Vec<Value> = Vec::new();
+        for r in &applied {
+            let mut rj = serde_json::to_value(r).unwrap();
+            if let Some(exs) = ui_out["rules"].get(&r.id).and_then(|x| x.get("examples")) {
+                rj["examples"] = exs.clone();
+            }
+            rules2.push(rj);
+        }
+        let input: TestExamplesInput = serde_json::from_value(json!({"router_config": c.config_json, "rules": rules2, "max_hops": c.max_hops, "project_domains": c.domains})).unwrap();
+        let out = serde_json::to_value(TestExamplesOutput::create_result_without_project(input)).unwrap();
+        if let Some(m) = out["first_ten_failures"].as_object() {
+            for (id, fr) in m {
+                for fe in fr["failed_examples"].as_array().cloned().unwrap_or_default() {
+                    if fe["unit_ids_not_applied_anymore"].as_array().map(|a| !a.is_empty()).unwrap_or(false) {
+                        fails.push((format!("rule {id}: the unit ids reported by unit-ids are not all applied according to test-examples: {}", fe["unit_ids_not_applied_anymore"]), "unit-ids-roundtrip"));
+                    }
+                }
+            }
+        }
     }
     if canon_test_examples(&te_r) != canon_test_examples(&te_s) {
         fails.push(("test-examples: depends on rule order".into(), "order-independence"));
